@@ -57,7 +57,7 @@ Proof. exact tri_two_sided. Qed.
     the tangents lie in the disk's plane *)
 Theorem C13_flat_disk : forall (d : Disk R) (ray : Ray R) (i : Info R), disk_wf d ->
   disk_intersect_local_ray d ray = Some i ->
-  (exists t, 0 <= t /\ ip i = ray_project ray t) /\ on_disk d (ip i) /\
+  (exists t, 0 < t /\ ip i = ray_project ray t) /\ on_disk d (ip i) /\
   vdot (dk_normal d) (rdir ray) <> 0 /\
   vdot (inormal i) (rdir ray) < 0 /\ vlen2 (inormal i) = 1 /\
   vdot (inormal i) (idpdu i) = 0 /\ vdot (inormal i) (idpdv i) = 0 /\
